@@ -318,4 +318,4 @@ def _obligations():
 
 
 def obligations():
-    return _obligations() + [constructors_obligation(['cryomotl.Motl']), labels_obligation("C08"), selectors_obligation("C08"), effects_obligation("C08")]
+    return _obligations() + [constructors_obligation(['cryomotl.Motl']), labels_obligation("C08"), selectors_obligation("C08"), effects_obligation("C08"), plumbing_obligation("C08")]
